@@ -103,6 +103,7 @@ int sqfs_meta_reader_seek(sqfs_meta_reader_t *m, sqfs_u64 block_start,
 		return SQFS_ERROR_OUT_OF_BOUNDS;
 
 	if (block_start == m->block_offset) {
+		VERIF_EVENT(30, 0, block_start, offset);
 		if (offset >= m->data_used)
 			return SQFS_ERROR_OUT_OF_BOUNDS;
 
@@ -147,6 +148,7 @@ int sqfs_meta_reader_seek(sqfs_meta_reader_t *m, sqfs_u64 block_start,
 	if (offset >= m->data_used)
 		return SQFS_ERROR_OUT_OF_BOUNDS;
 
+	VERIF_EVENT(30, 1, block_start, offset);
 	m->block_offset = block_start;
 	m->next_block = block_start + size + 2;
 	m->offset = offset;
